@@ -56,14 +56,17 @@ type recEvent struct {
 	fn    string
 	vals  []uint64
 	chain []string
+	extra int // length of the slice handed to the listener minus the number of parameters (results)
 }
 
 type runner struct {
-	t      *tape.Tape
-	res    *sim.Result
-	engine string
-	listen bool
-	subset map[string]bool // nil = all functions
+	recCount          bool // the recursing functions carry counting listeners
+	recBefore, recEnd int64
+	t                 *tape.Tape
+	res               *sim.Result
+	engine            string
+	listen            bool
+	subset            map[string]bool // nil = all functions
 	// instSubset, when set, gives each instance (= each compilation) its own selection
 	instSubset []map[string]bool
 	w          *plan.World
@@ -190,7 +193,9 @@ func (r *runner) modelHost(w *plan.World, in *plan.Inst, tag, v int32) (int32, *
 				return d.swret, nil
 			}
 			r.faults++
-			return 0, f
+			ff := *f
+			ff.Rethrown = true
+			return 0, &ff
 		}
 		return res, nil
 	}
@@ -262,7 +267,20 @@ type lfactory struct {
 	idx int // instance (compilation) index, -1 for the host module
 }
 
+// cntLst only counts: the listener of the recursing functions (class overflow), whose depth, and so
+// whose number of events, is implementation-defined; begun and ended calls must balance.
+type cntLst struct{ r *runner }
+
+func (l cntLst) Before(context.Context, api.Module, api.FunctionDefinition, []uint64, experimental.StackIterator) {
+	l.r.recBefore++
+}
+func (l cntLst) After(context.Context, api.Module, api.FunctionDefinition, []uint64) { l.r.recEnd++ }
+func (l cntLst) Abort(context.Context, api.Module, api.FunctionDefinition, error)    { l.r.recEnd++ }
+
 func (f lfactory) NewFunctionListener(def api.FunctionDefinition) experimental.FunctionListener {
+	if f.r.recCount && strings.Contains(def.DebugName(), ".rec") {
+		return cntLst{f.r}
+	}
 	if !f.r.listensIdx(f.idx, def.DebugName()) {
 		return nil
 	}
@@ -272,7 +290,7 @@ func (f lfactory) NewFunctionListener(def api.FunctionDefinition) experimental.F
 type lst struct{ r *runner }
 
 func (l *lst) Before(ctx context.Context, mod api.Module, def api.FunctionDefinition, params []uint64, si experimental.StackIterator) {
-	e := recEvent{kind: "before", fn: def.DebugName()}
+	e := recEvent{kind: "before", fn: def.DebugName(), extra: len(params) - len(def.ParamTypes())}
 	for i, pt := range def.ParamTypes() {
 		if i < len(params) {
 			e.vals = append(e.vals, decodeVal(pt, params[i]))
@@ -289,7 +307,7 @@ func (l *lst) Before(ctx context.Context, mod api.Module, def api.FunctionDefini
 	l.r.events = append(l.r.events, e)
 }
 func (l *lst) After(ctx context.Context, mod api.Module, def api.FunctionDefinition, results []uint64) {
-	e := recEvent{kind: "after", fn: def.DebugName()}
+	e := recEvent{kind: "after", fn: def.DebugName(), extra: len(results) - len(def.ResultTypes())}
 	for i, rt := range def.ResultTypes() {
 		if i < len(results) {
 			e.vals = append(e.vals, decodeVal(rt, results[i]))
@@ -360,7 +378,13 @@ func (r *runner) setup(plans []*plan.Plan, names []string, imports []int) {
 	}
 	_, err := r.rt.NewHostModuleBuilder("env").NewFunctionBuilder().
 		WithGoModuleFunction(api.GoModuleFunc(r.realHost), []api.ValueType{api.ValueTypeI32, api.ValueTypeI32}, []api.ValueType{api.ValueTypeI32}).
-		WithName("h").Export("h").Instantiate(cctx)
+		WithName("h").Export("h").
+		NewFunctionBuilder().
+		WithGoModuleFunction(api.GoModuleFunc(func(ctx context.Context, mod api.Module, stack []uint64) {
+			r0, r1 := plan.Host2(int32(uint32(stack[0])))
+			stack[0], stack[1] = uint64(uint32(r0)), uint64(uint32(r1))
+		}), []api.ValueType{api.ValueTypeI32}, []api.ValueType{api.ValueTypeI32, api.ValueTypeI32}).
+		WithName("h2").Export("h2").Instantiate(cctx)
 	if err != nil {
 		panic(err)
 	}
@@ -463,9 +487,25 @@ func eqStr(a, b []string) bool {
 func (r *runner) compareEvents(what string, deep int, deepChain bool) (known []string) {
 	want := r.w.Events
 	got := r.events
+	// known finding (compiler): frames unwound by stack exhaustion get no Abort
+	exhaustion := false
+	if r.engine == "compiler" {
+		for _, we := range want {
+			exhaustion = exhaustion || we.Exhaustion
+		}
+	}
+	skipped := 0
+	defer func() {
+		if skipped > 0 && r.res.Violation == nil {
+			known = append(known, "compiler-no-abort-on-stack-exhaustion")
+		}
+	}()
 	// bracketing automaton over the recorded stream, independent of the model
 	var stack []string
 	for i, e := range got {
+		if exhaustion {
+			break // judged against the model below, where exactly the exhaustion aborts may be absent
+		}
 		switch e.kind {
 		case "before":
 			stack = append(stack, e.fn)
@@ -481,12 +521,16 @@ func (r *runner) compareEvents(what string, deep int, deepChain bool) (known []s
 			stack = stack[:len(stack)-1]
 		}
 	}
-	if deep == 0 && len(stack) != 0 {
+	if deep == 0 && len(stack) != 0 && !exhaustion {
 		r.res.Fail("listener-unbalanced", "%s: %d before-events never got an after- or abort-event (innermost %s)", what, len(stack), stack[len(stack)-1])
 		return
 	}
 	gi := 0
 	for wi, we := range want {
+		if exhaustion && we.Exhaustion && (gi >= len(got) || got[gi].kind != "abort" || got[gi].fn != we.Func) {
+			skipped++
+			continue
+		}
 		if gi >= len(got) {
 			if deep > 0 && we.Kind == "abort" && r.engine == "compiler" {
 				// known finding (compiler): aborts beyond MaxFrames (30) are dropped
@@ -503,6 +547,10 @@ func (r *runner) compareEvents(what string, deep int, deepChain bool) (known []s
 		gi++
 		if ge.kind != we.Kind || ge.fn != we.Func {
 			r.res.Fail("listener-sequence", "%s: event %d is %s %s, model predicts %s", what, wi, ge.kind, ge.fn, we)
+			return
+		}
+		if we.Kind != "abort" && ge.extra != 0 {
+			r.res.Fail("listener-values", "%s: event %d %s %s: the slice handed to the listener has %d values, the function has %d (%v)", what, wi, ge.kind, ge.fn, len(we.Vals)+ge.extra, len(we.Vals), we.Vals)
 			return
 		}
 		if we.Kind != "abort" && !eqU32(ge.vals, we.Vals) {
